@@ -1394,3 +1394,57 @@ def rule_finite(ctx) -> RuleResult:
                            "a group) and would be skipped like the NaN of an absent group; use isnull / np.isnan")
     res.inst(f"{n} finiteness tests found in kernel and combine code", "count")
     return res
+
+
+# ---------------------------------------------------------------------------------------------
+# R-EMPTYKERNEL (C10, C19): a kernel that marks run starts with a leading constant True handles an empty axis first.
+# `np.concatenate(([True], x[1:] != x[:-1]))` has length 1 for an empty x: the first "group start" is then position 0 of an axis of length
+# 0, and the store / reduceat that follows raises IndexError.  Zero-length chunks are legal dask arrays (they appear after slicing and
+# filtering).  Each function using the idiom must return early for an empty axis, or be listed with the caller-side guard that keeps
+# empty input away from it.
+_EMPTYKERNEL_EXCEPTIONS = {
+    # function: (reason, validator: (function, text that must occur in an `if` test guarding the kernel call))
+    "aggregate_flox._np_grouped_op": ("only reached from chunk_reduce, which builds an all-fill result itself when the block is empty "
+                                      "(`empty = np.all(props.nanmask)` is True for a zero-length block) and does not call the kernel",
+                                      ("core.chunk_reduce", "empty")),
+}
+
+
+def rule_emptykernel(ctx) -> RuleResult:
+    res = RuleResult("R-EMPTYKERNEL", "kernels that mark run starts with a leading constant handle an empty axis first", min_instances=2)
+    prog = ctx.prog
+    n = 0
+    for q, f in sorted(prog.funcs.items()):
+        if f.is_overload or isinstance(f.node, ast.Lambda) or not q.startswith(("aggregate_flox.", "aggregate_npg.", "aggregate_numbagg.", "aggregations.", "xrutils.")):
+            continue
+        idiom = None
+        for c in calls_in(f.node):
+            if norm(c.func) in ("np.concatenate", "numpy.concatenate") and c.args and isinstance(c.args[0], (ast.Tuple, ast.List)) and len(c.args[0].elts) == 2:
+                a0, a1 = c.args[0].elts
+                if "True" in norm(a0) and isinstance(a1, ast.Compare) and "[1:]" in norm(a1) and "[:-1]" in norm(a1):
+                    idiom = c
+        if idiom is None:
+            continue
+        n += 1
+        guard = None
+        for st in f.node.body:
+            if st.lineno >= idiom.lineno:
+                break
+            if isinstance(st, ast.If) and any(isinstance(r, ast.Return) for r in st.body) and \
+                    (("== 0" in norm(st.test) and (".shape" in norm(st.test) or ".size" in norm(st.test))) or "not " in norm(st.test) and ".size" in norm(st.test)):
+                guard = norm(st.test)[:50]
+        why = f"early return when {guard}" if guard else None
+        if why is None and q in _EMPTYKERNEL_EXCEPTIONS:
+            reason, (cq, needle) = _EMPTYKERNEL_EXCEPTIONS[q]
+            cf = prog.funcs.get(cq)
+            ok = cf is not None and any(isinstance(st, ast.If) and norm(st.test) == needle and any(isinstance(x, ast.Call) and norm(x.func) == "generic_aggregate" for b in st.orelse for x in ast.walk(b))
+                                        for st in ast.walk(cf.node))
+            if ok:
+                why = f"listed exception: {reason[:90]}..."
+        res.inst(f"{q}: run-start idiom '{norm(idiom)[:50]}': {why or 'NO guard for an empty axis'}", q)
+        if why is None:
+            res.report(f"{q}|empty-axis-unguarded", f.where(idiom), q,
+                       f"'{norm(idiom)[:70]}' yields one run start for an empty axis; the code that follows indexes position 0 of an axis of length 0 "
+                       "(IndexError inside a task for a dask array with a zero-length chunk); return early when the axis is empty")
+    res.inst(f"{n} kernels use the run-start idiom", "count")
+    return res
